@@ -27,14 +27,17 @@ DRIVER = "dm_slicing"
 LEAN_MODULES = ["DaskModel.Props.C29"]
 CASE_TIMEOUT_S = 30
 LEVEL_TEXT = (
-    "Lean 4 theorems over a transliteration of slices_from_chunks, optimization.fuse_slice and the index "
-    "load_store_chunk writes to: for every chunk list the block slices tile the axis (cover, disjoint, in order) "
-    "and the N-d blocks are their product; fuse_slice(region, block) selects exactly the block's part of the "
-    "region, so for every positive-step region the writes of all blocks are pairwise disjoint, stay inside the "
-    "region and together cover region positions 0…len(source) in order — hence the outcome does not depend on "
-    "the write order (lock/scheduler irrelevant for the values); to_npy_stack keeps the chunks of the stacking "
-    "axis and the extents of the others. Thread-safety of the target object itself, pickling of targets and the "
-    "file system are outside the model; the public store/to_npy_stack paths are validated end to end."
+    "Lean 4 theorems (no size bound) over transliterations of slices_from_chunks, optimization.fuse_slice and the "
+    "index load_store_chunk writes to: per axis the block slices tile the axis and the N-d blocks are their product; "
+    "fuse_slice(region, block) selects exactly the block's part of the region, so for every normalisable "
+    "positive-step region the blocks write the consecutive pieces P[l0:l1] of the region's positions P, together "
+    "P[:len(source)] (store_region_den, store_complete). N-d: a target position lies in target[region][:shape] on "
+    "every axis iff some block writes it (store_nd_cover) and then exactly one block does (store_nd_exactly_once) — "
+    "hence the stored values do not depend on write order, lock or scheduler. to_npy_stack keeps the chunks of the "
+    "stacking axis and the extents of the others. Validated end to end, not proved: the graph plumbing of store "
+    "(layer names per source/target-identity/region, targets > 1 MB wrapped in delayed, compute=False stores computed "
+    "together later, return_stored/load_stored, Delayed targets, one target with several regions), locks and the "
+    "threaded scheduler, np.save/np.load and the file system; negative-step regions raise NotImplementedError."
 )
 LEVEL_NOTE = (
     "Trusted: Lean kernel; the hand-written model (diffed against slices_from_chunks, fuse_slice and "
